@@ -325,4 +325,212 @@ example : (AclObj.construct (some .permit) 25).boundIsSlots ∧
     noSetMax [.add exRuleDenyHttp 3, .setImplicit .deny, .check exPkt, .remove 24] = true :=
   ⟨C07_construct_boundIsSlots _ _, by decide⟩
 
+/-! ### `num_rules` and the rows of `show()` -/
+
+def countSome (l : List (Option Rule)) : Nat := (l.filter Option.isSome).length
+
+theorem countSome_set (l : List (Option Rule)) (i : Nat) (x : Option Rule) (hi : i < l.length) :
+    countSome (l.set i x) + (if (l[i]?).join.isSome then 1 else 0) = countSome l + (if x.isSome then 1 else 0) := by
+  induction l generalizing i with
+  | nil => simp at hi
+  | cons y rest ih =>
+    cases i with
+    | zero => cases y <;> cases x <;> simp [countSome, List.filter]
+    | succ i =>
+      have hi' : i < rest.length := by simpa using hi
+      have := ih i hi'
+      have e1 : (y :: rest).set (i + 1) x = y :: rest.set i x := rfl
+      have e2 : (y :: rest)[i + 1]? = rest[i]? := by simp
+      rw [e1, e2]
+      cases y <;> simp only [countSome, List.filter, Option.isSome, List.length_cons] at this ⊢ <;> omega
+
+theorem countSome_modify (l : List (Option Rule)) (i : Nat) (f : Rule → Rule) :
+    countSome (l.modify i (fun o => o.map f)) = countSome l := by
+  induction l generalizing i with
+  | nil => simp [countSome]
+  | cons y rest ih =>
+    cases i with
+    | zero => cases y <;> simp [countSome, List.filter]
+    | succ i =>
+      have := ih i
+      cases y <;> simp_all [countSome, List.filter, List.modify_succ_cons]
+
+/-- `num_rules` counts the occupied slots: it never exceeds the slot count, a successful `add_rule` raises it by one
+exactly when the slot was empty (an overwrite keeps it), a successful `remove_rule` lowers it by one exactly when the slot
+was occupied, and verdicts / attribute assignments leave it alone. -/
+theorem C07_numRules (o : AclObj) :
+    o.numRules ≤ o.core.rules.length ∧
+    (∀ r pos, (o.addRule r pos).2 = .ok →
+      (o.addRule r pos).1.numRules + (if (o.core.rules[pos.toNat]?).join.isSome then 1 else 0) = o.numRules + 1) ∧
+    (∀ pos, (o.removeRule pos).2 = .ok →
+      (o.removeRule pos).1.numRules + (if (o.core.rules[pos.toNat]?).join.isSome then 1 else 0) = o.numRules) ∧
+    (∀ p, (o.isPermitted p).2.2.numRules = o.numRules) ∧
+    (∀ a, (o.setImplicit a).numRules = o.numRules) ∧ (∀ n, (o.setMaxRules n).numRules = o.numRules) := by
+  refine ⟨List.length_filter_le _ _, ?_, ?_, ?_, fun _ => rfl, fun _ => rfl⟩
+  · intro r pos h
+    obtain ⟨_, _, hlt⟩ := (C07_obj_addRule o r pos).2.2.1.mp h
+    have hadd : Acl.addRule o.core r pos.toNat =
+        some { o.core with rules := o.core.rules.set pos.toNat (some { r with hits := 0 }) } := by
+      simp [Acl.addRule, hlt]
+    have hin : o.inBound pos = true := by
+      have := (C07_obj_addRule o r pos).2.2.1.mp h
+      simp [AclObj.inBound, this.1, this.2.1]
+    have := countSome_set o.core.rules pos.toNat (some { r with hits := 0 }) hlt
+    simpa [AclObj.addRule, hin, hadd, AclObj.numRules, countSome] using this
+  · intro pos h
+    obtain ⟨_, _, hlt⟩ := (C07_obj_removeRule o pos).2.2.1.mp h
+    have hrem : Acl.removeRule o.core pos.toNat = some { o.core with rules := o.core.rules.set pos.toNat none } := by
+      simp [Acl.removeRule, hlt]
+    have hin : o.inBound pos = true := by
+      have := (C07_obj_removeRule o pos).2.2.1.mp h
+      simp [AclObj.inBound, this.1, this.2.1]
+    have := countSome_set o.core.rules pos.toNat none hlt
+    simpa [AclObj.removeRule, hin, hrem, AclObj.numRules, countSome] using this
+  · intro p
+    show countSome (Acl.isPermitted o.core p).2.2.rules = countSome o.core.rules
+    unfold Acl.isPermitted
+    cases heq : firstMatch p o.core.rules 0 with
+    | some ir => obtain ⟨i, r⟩ := ir; exact countSome_modify _ _ _
+    | none => rfl
+
+theorem showRowsFrom_mem (l : List (Option Rule)) (off i : Nat) (r : Rule) :
+    (i, r) ∈ showRowsFrom l off ↔ off ≤ i ∧ l[i - off]? = some (some r) := by
+  induction l generalizing off with
+  | nil => simp [showRowsFrom]
+  | cons x rest ih =>
+    cases x with
+    | none =>
+      simp only [showRowsFrom, ih]
+      constructor
+      · rintro ⟨h1, h2⟩
+        refine ⟨by omega, ?_⟩
+        have : i - off = (i - (off + 1)) + 1 := by omega
+        rw [this]; simpa using h2
+      · rintro ⟨h1, h2⟩
+        by_cases he : i = off
+        · subst he; simp at h2
+        · refine ⟨by omega, ?_⟩
+          have : i - off = (i - (off + 1)) + 1 := by omega
+          rw [this] at h2; simpa using h2
+    | some r0 =>
+      simp only [showRowsFrom, List.mem_cons, Prod.mk.injEq, ih]
+      constructor
+      · rintro (⟨rfl, rfl⟩ | ⟨h1, h2⟩)
+        · simp
+        · refine ⟨by omega, ?_⟩
+          have : i - off = (i - (off + 1)) + 1 := by omega
+          rw [this]; simpa using h2
+      · rintro ⟨h1, h2⟩
+        by_cases he : i = off
+        · subst he; simp at h2; exact Or.inl ⟨rfl, h2.symm⟩
+        · refine Or.inr ⟨by omega, ?_⟩
+          have : i - off = (i - (off + 1)) + 1 := by omega
+          rw [this] at h2; simpa using h2
+
+/-- `show()` lists every occupied slot under its own position, and one more row — index = the slot count — for the
+`implicit_rule` OBJECT: the action the list was built with and the implicit counter. -/
+theorem C07_showRows (o : AclObj) (i : Nat) (r : Rule) :
+    (i, r) ∈ o.showRows ↔
+      o.core.rules[i]? = some (some r) ∨ (i = o.core.rules.length ∧ r = o.implicitRuleObj) := by
+  unfold AclObj.showRows
+  rw [showRowsFrom_mem]
+  simp only [Nat.zero_le, Nat.sub_zero, true_and]
+  by_cases hi : i < o.core.rules.length
+  · rw [List.getElem?_append_left hi]
+    constructor
+    · exact Or.inl
+    · rintro (h | ⟨h, _⟩)
+      · exact h
+      · omega
+  · rw [List.getElem?_append_right (by omega)]
+    have hnone : o.core.rules[i]? = none := by simp; omega
+    rw [hnone]
+    by_cases he : i = o.core.rules.length
+    · subst he; simp [eq_comm]
+    · have : i - o.core.rules.length ≠ 0 := by omega
+      cases hk : i - o.core.rules.length with
+      | zero => exact absurd hk this
+      | succ k => simp [he]
+
+/-! ### the lists of one device are independent -/
+
+/-- the operations of a device trace that address list `j`, in order -/
+def opsFor (j : ListId) : List (ListId × Op) → List Op
+  | [] => []
+  | (i, op) :: rest => if i = j then op :: opsFor j rest else opsFor j rest
+
+/-- the answers of a device trace that belong to operations addressed to list `j`, in order -/
+def ansFor (j : ListId) : List (ListId × Op) → List Ans → List Ans
+  | (i, _) :: rest, a :: as => if i = j then a :: ansFor j rest as else ansFor j rest as
+  | _, _ => []
+
+/-- An operation on one list changes no other list of the device. -/
+theorem C07_device_step_frame (d : Device) (i j : ListId) (op : Op) (h : j ≠ i) : (d.step i op).1 j = d j := by
+  simp [Device.step, Device.set, h]
+
+theorem device_step_self (d : Device) (i : ListId) (op : Op) :
+    (d.step i op).1 i = ((d i).step op).1 ∧ (d.step i op).2 = ((d i).step op).2 := by
+  simp [Device.step, Device.set]
+
+theorem device_run_cons (d : Device) (i : ListId) (op : Op) (rest : List (ListId × Op)) :
+    d.run ((i, op) :: rest) = (((d.step i op).1.run rest).1, (d.step i op).2 :: ((d.step i op).1.run rest).2) := rfl
+
+/-- **Each of a device's lists behaves as if it were alone**: after ANY interleaving of operations addressed to the seven
+lists, list `j` is in the state — rules, counters, implicit action, `max_acl_rules` — that the operations addressed to `j`
+alone produce, and it gave those operations the answers it would have given alone.  In particular a rule added to one
+list never changes a verdict, a counter or a slot of another. -/
+theorem C07_device_independent (d : Device) (ops : List (ListId × Op)) (j : ListId) :
+    (d.run ops).1 j = ((d j).run (opsFor j ops)).1 ∧
+    ansFor j ops (d.run ops).2 = ((d j).run (opsFor j ops)).2 := by
+  induction ops generalizing d with
+  | nil => exact ⟨rfl, rfl⟩
+  | cons x rest ih =>
+    obtain ⟨i, op⟩ := x
+    rw [device_run_cons]
+    obtain ⟨ih1, ih2⟩ := ih (d.step i op).1
+    by_cases h : i = j
+    · subst h
+      obtain ⟨s1, s2⟩ := device_step_self d i op
+      simp only [opsFor, ansFor, if_true, run_cons]
+      rw [s1] at ih1 ih2
+      exact ⟨ih1, by rw [ih2, s2]⟩
+    · have hj : j ≠ i := fun e => h e.symm
+      simp only [opsFor, ansFor, h, if_false]
+      rw [C07_device_step_frame d i j op hj] at ih1 ih2
+      exact ⟨ih1, ih2⟩
+
+/-- corollary: a list that no operation of the trace addresses is untouched -/
+theorem C07_device_untouched (d : Device) (ops : List (ListId × Op)) (j : ListId)
+    (h : ∀ x, x ∈ ops → x.1 ≠ j) : (d.run ops).1 j = d j := by
+  have hnil : opsFor j ops = [] := by
+    induction ops with
+    | nil => rfl
+    | cons x rest ih =>
+      obtain ⟨i, op⟩ := x
+      have hi : i ≠ j := h (i, op) (by simp)
+      simp only [opsFor, hi, if_false]
+      exact ih (fun y hy => h y (by simp [hy]))
+  rw [(C07_device_independent d ops j).1, hnil]; rfl
+
+/-- a firewall as built: the six lists are empty with the documented defaults (external permit, the rest deny); the
+inherited router list denies by default and holds the ARP and ICMP rules at 22 and 23 -/
+theorem C07_firewall_as_built :
+    (∀ j, j ≠ .router → ((Device.firewall 25) j).numRules = 0 ∧ ((Device.firewall 25) j).core.rules.length = 24 ∧
+        ((Device.firewall 25) j).core.implicit = firewallImplicit j ∧
+        ((Device.firewall 25) j).ruleAction = firewallImplicit j) ∧
+    ((Device.firewall 25) .router).numRules = 2 ∧ ((Device.firewall 25) .router).core.implicit = .deny ∧
+    firewallImplicit .extIn = .permit ∧ firewallImplicit .extOut = .permit ∧
+    firewallImplicit .intIn = .deny ∧ firewallImplicit .intOut = .deny ∧
+    firewallImplicit .dmzIn = .deny ∧ firewallImplicit .dmzOut = .deny := by
+  refine ⟨?_, by decide, by decide, rfl, rfl, rfl, rfl, rfl, rfl⟩
+  intro j hj
+  cases j <;> first | exact absurd rfl hj | decide
+
+/-- non-vacuity: an interleaving that edits two lists and reassigns a default; the dmz list is untouched -/
+example :
+    let ops : List (ListId × Op) := [(.intIn, .add exRuleDenyHttp 3), (.extIn, .setImplicit .deny),
+      (.intIn, .check exPkt), (.extIn, .check exPkt)]
+    ((Device.firewall 25).run ops).2 = [.edit .ok, .done, .verdict false (.rule 3), .verdict false .implicit] ∧
+    opsFor .dmzIn ops = [] := by decide
+
 end Primaite.Acl
